@@ -39,7 +39,8 @@ class Cell:
 
     def __init__(self, cid, prog, inputs, pre=None, budget=400, family='',
                  ref=True, inkeys=0, peeks=0, note='', tags=(), strlen=None,
-                 slow=False, impl='sym'):
+                 slow=False, impl='sym', lines=0, line_alpha='1,-. x',
+                 line_len=4, tail_lines=()):
         self.cid = cid
         self.prog = prog
         self.inputs = inputs      # [(type_char, sentinel)]
@@ -54,6 +55,10 @@ class Cell:
         self.strlen = strlen
         self.slow = slow
         self.impl = impl
+        self.lines = lines          # number of symbolic INPUT lines
+        self.line_alpha = line_alpha
+        self.line_len = line_len
+        self.tail_lines = list(tail_lines)
         self.text = to_text(prog)
 
     def params(self):
@@ -68,6 +73,9 @@ class Cell:
         for _ in range(self.peeks):
             ps.append(('x%d' % n, 'int', '%'))
             n += 1
+        for _ in range(self.lines):
+            ps.append(('x%d' % n, 'str', 'L'))
+            n += 1
         return ps
 
     def precondition(self, strlen=4):
@@ -79,6 +87,10 @@ class Cell:
                 cs.append('-32768 <= %s <= 32767' % name)
             elif t == '&':
                 cs.append('-2147483648 <= %s <= 2147483647' % name)
+            elif t == 'L':
+                cs.append('len(%s) <= %d' % (name, self.line_len))
+                cs.append('all(c in %r for c in %s)' % (self.line_alpha,
+                                                        name))
             else:
                 cs.append('len(%s) <= %d' % (name, strlen))
                 cs.append('all(32 <= ord(c) <= 126 for c in %s)' % name)
@@ -93,6 +105,8 @@ class Cell:
             seeds[(t, sent)] = x
         inkeys = list(xs[n:n + self.inkeys])
         peeks = list(xs[n + self.inkeys:n + self.inkeys + self.peeks])
+        self._lines = list(xs[n + self.inkeys + self.peeks:]) + \
+            self.tail_lines
         return seeds, inkeys, peeks
 
 
@@ -113,7 +127,7 @@ def run_impl(cell, cfg, xs, per_tick=None, abstract=True):
     trace, out, machine = run_program(
         cell.text, opt, dbg, cell.budget, impl_seeds or None,
         per_tick=per_tick, catch_host_exc=True, impl_kind=cell.impl,
-        inkeys=inkeys, peeks=peeks)
+        inkeys=inkeys, peeks=peeks, inputs=list(cell._lines))
     return trace, out, machine
 
 
@@ -121,6 +135,7 @@ def run_ref(cell, xs, abstract=True):
     seeds, inkeys, peeks = cell.split(xs)
     it = qbref.Interp(cell.prog, seeds, inkeys=inkeys, peeks=peeks,
                       budget=cell.budget * 4, abstract_numbers=abstract)
+    it.lines = list(cell._lines)
     res = it.run()
     return it.trace, res, it
 
